@@ -171,6 +171,17 @@ pub(crate) mod alloc {
 
         /// Compute a FFT, modifying the vector in place.
         fn fft_in_place(&self, coeffs: &mut Vec<BlsScalar>) {
+            // On the domain `X^size = 1`, so a polynomial with more
+            // coefficients than the domain has points evaluates like its
+            // reduction modulo `X^size - 1`: fold the excess coefficients
+            // back instead of dropping them.
+            let size = self.size();
+            if coeffs.len() > size {
+                let (head, tail) = coeffs.split_at_mut(size);
+                for (i, coeff) in tail.iter().enumerate() {
+                    head[i % size] += coeff;
+                }
+            }
             coeffs.resize(self.size(), BlsScalar::zero());
             best_fft(coeffs, self.group_gen, self.log_size_of_group)
         }
